@@ -17,7 +17,7 @@
 //
 //	{"op":"c16","kind":"rpc","service":"pkg.Svc","method":"GoName","args":[wire...],
 //	 "ret":wire|null,"herr":ERR,"prov":[MW],"cctor":[MW],"pctor":[MW],"padd":[MW],
-//	 "cstyle":STYLE,"pstyle":STYLE,"provstyle":STYLE,"poison":[MW],"calls":n,"proto":"binary"}
+//	 "cstyle":STYLE,"pstyle":STYLE,"provstyle":STYLE,"poison":[MW],"calls":n,"proto":"binary","async":bool}
 //	{"op":"c16","kind":"scope","scope":"pkg.Scope","opname":"Op","vars":[str],"value":wire,"herr":ERR,
 //	 "errorable":bool,"ector":bool (New<Scope>ErrorableSubscriber instead of New<Scope>Subscriber),"pprov":[MW],"pctor":[MW],"sprov":[MW],"sctor":[MW],"shared":bool,
 //	 "pstyle":STYLE,"sstyle":STYLE,"provstyle":STYLE,"poison":[MW],"calls":n,"proto":"binary"}
@@ -46,6 +46,7 @@ import (
 	"sort"
 	"strconv"
 	"strings"
+	"time"
 
 	frugal "github.com/Workiva/frugal/lib/go"
 	"github.com/apache/thrift/lib/go/thrift"
@@ -117,6 +118,7 @@ type request struct {
 	SProv     []mwSpec    `json:"sprov"`
 	SCtor     []mwSpec    `json:"sctor"`
 	Shared    bool        `json:"shared"`
+	Async     bool        `json:"async"` // rpc: call <Method>Async (programs generated with -gen go:async)
 	ECtor     bool        `json:"ector"` // build the subscriber with New<Scope>ErrorableSubscriber
 }
 
@@ -646,7 +648,35 @@ func (e *exp) rpc(q *request) interface{} {
 		}
 		e.events = []interface{}{}
 		runs = append(runs, e.guarded(func(out map[string]interface{}) {
-			res := client.MethodByName(q.Method).Call(in)
+			name := q.Method
+			if q.Async {
+				name += "Async"
+			}
+			res := client.MethodByName(name).Call(in)
+			if q.Async {
+				// (r <-chan T, err <-chan error) or (err <-chan error): exactly one of them delivers
+				cases := []reflect.SelectCase{{Dir: reflect.SelectRecv, Chan: res[len(res)-1]},
+					{Dir: reflect.SelectRecv, Chan: reflect.ValueOf(time.After(10 * time.Second))}}
+				if len(res) == 2 {
+					cases = append(cases, reflect.SelectCase{Dir: reflect.SelectRecv, Chan: res[0]})
+				}
+				chosen, v, _ := reflect.Select(cases)
+				out["err"] = nil
+				switch chosen {
+				case 0:
+					if !v.IsNil() {
+						out["err"] = e.dumpErr(v.Interface().(error))
+					}
+					if len(res) == 2 {
+						out["ret"] = nil
+					}
+				case 1:
+					panic("c16: nothing delivered by the Async method")
+				case 2:
+					out["ret"] = e.dump(v)
+				}
+				return
+			}
 			if len(res) == 2 {
 				out["ret"] = e.dump(res[0])
 			}
